@@ -708,15 +708,19 @@ func (e *emitter) c03Forward(s *source, rel, goName, callee, lean string) {
 		if ret, isRet := fd.Body.List[0].(*ast.ReturnStmt); isRet && len(ret.Results) == 1 {
 			if call, isCall := ret.Results[0].(*ast.CallExpr); isCall {
 				if sel, isSel := call.Fun.(*ast.SelectorExpr); isSel && sel.Sel.Name == callee {
-					if id, isId := sel.X.(*ast.Ident); isId && id.Name == recvName(fd) && call.Ellipsis == token.NoPos {
+					if id, isId := sel.X.(*ast.Ident); isId && id.Name == recvName(fd) {
 						ok = true
 						for _, f := range fd.Type.Params.List {
 							for _, n := range f.Names {
 								params = append(params, n.Name)
 							}
 						}
-						for _, a := range call.Args {
-							args = append(args, s.src(a))
+						for k, a := range call.Args {
+							t := s.src(a)
+							if call.Ellipsis != token.NoPos && k == len(call.Args)-1 {
+								t += "..." // the variadic parameter is handed on as a whole
+							}
+							args = append(args, t)
 						}
 					}
 				}
@@ -814,6 +818,200 @@ func (e *emitter) c03RescueLimiter(s *source, rel string) {
 	e.printf("/-- translated from NewTokenLimiter: the burst handed to xrate.NewLimiter -/\ndef rescueBurst (rate burst : Int) : Int := %s\n\n", b)
 }
 
+// ---------------------------------------------------------------------------------------------------------
+// round 5c: the store client's functions and NewPeriodLimit / Align, semantically.
+
+// c03ErrChain translates a function that is a sequence of `x, err := <call>` / `if err != nil { return … }` and a final
+// return: every `err != nil` is mapped to the Bool parameter named for the call whose result it tests.
+func (e *emitter) c03ErrChain(s *source, rel, goName, sig, fallback string, errName func(assign string) string,
+	val func(srcs string, body []ast.Stmt) (string, error)) {
+	fd := s.findFunc(rel, goName)
+	if fd == nil {
+		e.errors = append(e.errors, goName+" not found")
+		e.printf("%s %s\n\n", sig, fallback)
+		return
+	}
+	cc := &c03Chain{recv: recvName(fd), conds: map[string]string{}}
+	cc.skip = func(src string) bool {
+		n := errName(src)
+		if n == "" {
+			return false
+		}
+		cc.conds["err != nil"] = n
+		return true
+	}
+	cc.val = func(s *source, body []ast.Stmt) (string, error) {
+		var srcs []string
+		for _, b := range body {
+			srcs = append(srcs, s.src(b))
+		}
+		return val(strings.Join(srcs, "; "), body)
+	}
+	body, err := cc.walk(s, fd.Body.List)
+	if err != nil {
+		e.errors = append(e.errors, goName+": "+err.Error())
+		e.printf("%s %s\n\n", sig, fallback)
+		return
+	}
+	e.printf("/-- translated from `%s` in %s -/\n%s\n  %s\n\n", goName, rel, sig, body)
+}
+
+// c03SwitchConsts: a function whose body is one `switch <tag>` with constant string cases and a default:
+// the values of the case constants whose clause returns a call (no error literal), and whether the default returns nil + an error
+func (e *emitter) c03SwitchConsts(s *source, rel, goName, leanAccepted, leanDefault string) {
+	fd := s.findFunc(rel, goName)
+	var acc []string
+	dflt := false
+	ok := false
+	if fd != nil && len(fd.Body.List) == 1 {
+		if sw, isSw := fd.Body.List[0].(*ast.SwitchStmt); isSw && sw.Init == nil {
+			ok = true
+			for _, c := range sw.Body.List {
+				cl := c.(*ast.CaseClause)
+				ret, isRet := (ast.Stmt)(nil), false
+				if len(cl.Body) == 1 {
+					ret, isRet = cl.Body[0], true
+				}
+				r, isR := ret.(*ast.ReturnStmt)
+				if !isRet || !isR {
+					ok = false
+					continue
+				}
+				if cl.List == nil {
+					dflt = len(r.Results) == 2 && s.src(r.Results[0]) == "nil" && strings.HasPrefix(s.src(r.Results[1]), "fmt.Errorf(")
+					continue
+				}
+				if _, isCall := r.Results[0].(*ast.CallExpr); !isCall || len(r.Results) != 1 {
+					ok = false
+					continue
+				}
+				for _, ce := range cl.List {
+					cv, okc := s.eval(rel, ce)
+					if !okc {
+						ok = false
+						continue
+					}
+					acc = append(acc, strings.Trim(cv.ExactString(), "\""))
+				}
+			}
+		}
+	}
+	if !ok {
+		e.errors = append(e.errors, goName+": not a switch over constants")
+		acc = []string{"MISSING"}
+	}
+	e.stringList(leanAccepted, "values of the case constants of the switch in `"+goName+"` ("+rel+") whose clause returns a client", acc)
+	e.printf("/-- the default clause of the switch in `%s` returns nil and an error -/\ndef %s : Bool := %v\n\n", goName, leanDefault, dflt)
+}
+
+// c03OrErrs: `return err == nil || errorx.In(err, A, B) || errors.Is(err, C)`: the accepted error values
+func (e *emitter) c03OrErrs(s *source, rel, goName, lean string) {
+	fd := s.findFunc(rel, goName)
+	var out []string
+	ok := false
+	var walk func(x ast.Expr) bool
+	walk = func(x ast.Expr) bool {
+		switch v := x.(type) {
+		case *ast.ParenExpr:
+			return walk(v.X)
+		case *ast.BinaryExpr:
+			if v.Op == token.LOR {
+				return walk(v.X) && walk(v.Y)
+			}
+			if v.Op == token.EQL && s.src(v.X) == "err" {
+				out = append(out, s.src(v.Y))
+				return true
+			}
+		case *ast.CallExpr:
+			f := s.src(v.Fun)
+			if (f == "errorx.In" || f == "errors.Is") && len(v.Args) >= 2 && s.src(v.Args[0]) == "err" {
+				for _, a := range v.Args[1:] {
+					out = append(out, s.src(a))
+				}
+				return true
+			}
+		}
+		return false
+	}
+	if fd != nil && len(fd.Body.List) == 1 {
+		if r, isR := fd.Body.List[0].(*ast.ReturnStmt); isR && len(r.Results) == 1 {
+			ok = walk(r.Results[0])
+		}
+	}
+	if !ok {
+		e.errors = append(e.errors, goName+": not a disjunction of error tests")
+		out = []string{"MISSING"}
+	}
+	e.stringList(lean, "error values `"+goName+"` ("+rel+") accepts (`nil` = no error)", out)
+}
+
+// c03Ctor: NewPeriodLimit = `limiter := &PeriodLimit{f: e, …}`, `for _, opt := range opts { opt(limiter) }`, `return limiter`;
+// Align = `return func(l *PeriodLimit) { l.f = v }`.  Emits the field initialisers, the loop as (loop variable, ranged
+// expression, called function, argument), the returned variable, and the assignments of the option's closure.
+func (e *emitter) c03Ctor(s *source, rel string) {
+	pairs := func(name string, kv [][2]string) {
+		e.printf("def %s : List (String × String) := [", name)
+		for i, p := range kv {
+			if i > 0 {
+				e.printf(", ")
+			}
+			e.printf("(%s, %s)", leanString(p[0]), leanString(p[1]))
+		}
+		e.printf("]\n\n")
+	}
+	var fields, closure [][2]string
+	loop := []string{"MISSING"}
+	ret, litVar := "MISSING", "MISSING"
+	if fd := s.findFunc(rel, "NewPeriodLimit"); fd != nil && len(fd.Body.List) == 3 {
+		if as, ok := fd.Body.List[0].(*ast.AssignStmt); ok && len(as.Lhs) == 1 && len(as.Rhs) == 1 {
+			litVar = s.src(as.Lhs[0])
+			if u, ok := as.Rhs[0].(*ast.UnaryExpr); ok && u.Op == token.AND {
+				if cl, ok := u.X.(*ast.CompositeLit); ok {
+					for _, el := range cl.Elts {
+						if kv, ok := el.(*ast.KeyValueExpr); ok {
+							fields = append(fields, [2]string{s.src(kv.Key), s.src(kv.Value)})
+						}
+					}
+				}
+			}
+		}
+		if rg, ok := fd.Body.List[1].(*ast.RangeStmt); ok && rg.Value != nil && len(rg.Body.List) == 1 {
+			if es, ok := rg.Body.List[0].(*ast.ExprStmt); ok {
+				if call, ok := es.X.(*ast.CallExpr); ok && len(call.Args) == 1 {
+					loop = []string{s.src(rg.Value), s.src(rg.X), s.src(call.Fun), s.src(call.Args[0])}
+				}
+			}
+		}
+		if r, ok := fd.Body.List[2].(*ast.ReturnStmt); ok && len(r.Results) == 1 {
+			ret = s.src(r.Results[0])
+		}
+	} else {
+		e.errors = append(e.errors, "NewPeriodLimit: unexpected shape")
+	}
+	if fd := s.findFunc(rel, "Align"); fd != nil && len(fd.Body.List) == 1 {
+		if r, ok := fd.Body.List[0].(*ast.ReturnStmt); ok && len(r.Results) == 1 {
+			if fl, ok := r.Results[0].(*ast.FuncLit); ok && len(fl.Type.Params.List) == 1 && len(fl.Type.Params.List[0].Names) == 1 {
+				pv := fl.Type.Params.List[0].Names[0].Name
+				for _, st := range fl.Body.List {
+					if as, ok := st.(*ast.AssignStmt); ok && len(as.Lhs) == 1 && as.Tok == token.ASSIGN {
+						if sel, ok := as.Lhs[0].(*ast.SelectorExpr); ok && s.src(sel.X) == pv {
+							closure = append(closure, [2]string{sel.Sel.Name, s.src(as.Rhs[0])})
+							continue
+						}
+					}
+					e.errors = append(e.errors, "Align: statement outside the vocabulary: "+s.src(st))
+				}
+			}
+		}
+	} else {
+		e.errors = append(e.errors, "Align: unexpected shape")
+	}
+	pairs("newPeriodFields", fields)
+	e.stringList("newPeriodLoop", "the option loop of NewPeriodLimit: loop variable, ranged expression, called function, its argument", loop)
+	e.printf("def newPeriodLitVar : String := %s\ndef newPeriodRet : String := %s\n\n", leanString(litVar), leanString(ret))
+	pairs("alignAssigns", closure)
+}
+
 func init() {
 	register("C03", func(s *source, e *emitter) {
 		const pf = "core/limit/periodlimit.go"
@@ -891,5 +1089,48 @@ func init() {
 		e.c03Forward(s, tf, "TokenLimiter.AllowNCtx", "reserveN", "allowNCtxFwd")
 		e.c03RescueLimiter(s, tf)
 		e.c03LuaToks("core/limit/tokenscript.lua", "tokenLuaToks")
+
+		// round 5c
+		e.c03Forward(s, rf, "Redis.ScriptRun", "ScriptRunCtx", "scriptRunFwd")
+		e.c03Forward(s, rf, "Redis.Ping", "PingCtx", "pingFwd")
+		e.stringList("scriptRunCtxCallArgs", "arguments of script.Run in Redis.ScriptRunCtx", callArgs(s, rf, "Redis.ScriptRunCtx", "Run"))
+		e.c03ErrChain(s, rf, "Redis.ScriptRunCtx", "def scriptRunCtxChain (typeErr : Bool) : Int :=", "9",
+			func(a string) string {
+				if a == "conn, err := getRedis(s)" {
+					return "typeErr"
+				}
+				return ""
+			},
+			func(srcs string, body []ast.Stmt) (string, error) {
+				switch {
+				case srcs == "return nil, err":
+					return "0", nil // the error of getRedis, nothing is sent
+				case strings.HasPrefix(srcs, "return script.Run(") && strings.HasSuffix(srcs, ").Result()"):
+					return "1", nil // value AND error of the one script.Run(...) call, unchanged
+				}
+				return "", fmt.Errorf("block %q is not in the vocabulary", srcs)
+			})
+		e.c03ErrChain(s, rf, "Redis.PingCtx", "def pingCtxChain (typeErr cmdErr : Bool) (v : String) : Bool :=", "true",
+			func(a string) string {
+				switch a {
+				case "conn, err := getRedis(s)":
+					return "typeErr"
+				case "v, err := conn.Ping(ctx).Result()":
+					return "cmdErr"
+				}
+				return ""
+			},
+			func(srcs string, body []ast.Stmt) (string, error) {
+				switch srcs {
+				case "return false":
+					return "false", nil
+				case "return v == \"PONG\"":
+					return "(v == \"PONG\")", nil
+				}
+				return "", fmt.Errorf("block %q is not in the vocabulary", srcs)
+			})
+		e.c03SwitchConsts(s, rf, "getRedis", "getRedisAccepted", "getRedisDefaultIsError")
+		e.c03OrErrs(s, rf, "acceptable", "acceptableErrs")
+		e.c03Ctor(s, pf)
 	})
 }
